@@ -73,7 +73,10 @@ func (t *CompactTask) Execute() {
 	orderWg, inorderWg := m.ImmTable.refMmsTable(m, group.name, false)
 	defer func() {
 		if config.GetStoreConfig().Compact.CompactRecovery {
-			CompactRecovery(m.path, group)
+			// recover must be called by the deferred function itself: inside CompactRecovery it recovers nothing
+			if err := recover(); err != nil {
+				logCompactPanic(err, m.path, group)
+			}
 		}
 		m.ImmTable.unrefMmsTable(orderWg, inorderWg)
 		t.IncrFull(-1)
